@@ -1150,6 +1150,7 @@ public: \
   STORE_CONSTRAINT_TYPE__INTERNAL( \
     Constraint, optionNames) \
   int MapFind__Impl(const Constraint& ) { return -1; } \
+  void MapErase__Impl(const Constraint& ) { } \
   bool MapInsert__Impl(const Constraint&, int ) \
     { return true; }
 
